@@ -1919,7 +1919,8 @@ class LinearOperator(object):
         from linear_operator.operators.zero_linear_operator import ZeroLinearOperator
 
         if isinstance(other, ZeroLinearOperator):
-            return other
+            shape = torch.broadcast_shapes(self.shape, other.shape)
+            return other if other.shape == shape else ZeroLinearOperator(*shape, dtype=other.dtype, device=other.device)
 
         if not (torch.is_tensor(other) or isinstance(other, LinearOperator)):
             other = torch.tensor(other, dtype=self.dtype, device=self.device)
@@ -2838,7 +2839,8 @@ class LinearOperator(object):
         from linear_operator.operators.zero_linear_operator import ZeroLinearOperator
 
         if isinstance(other, ZeroLinearOperator):
-            return self
+            shape = torch.broadcast_shapes(self.shape, other.shape)
+            return self if self.shape == shape else self.expand(*shape)
         elif isinstance(other, DiagLinearOperator):
             return AddedDiagLinearOperator(self, other)
         elif isinstance(other, RootLinearOperator):
